@@ -675,6 +675,48 @@ def check(repo, rep, funcs, rule="R-EFFECT"):
                 rep.violation(rule, mu.site, "self:%s" % mu.what[:60],
                               "a method that is not a documented mutator writes to its own object: %s" % mu.what,
                               construct="line %d: %s" % (mu.node.lineno, mu.chain))
+    # functions nested in a family function (closures, decorator wrappers) are not interpreted by the engine above: a direct
+    # store into a module-level object from inside them is found syntactically (base name, or a local alias of it, is a
+    # module global; subscript / attribute store, mutator method, `global` rebinding)
+    MUT = {"append", "extend", "insert", "pop", "remove", "clear", "update", "setdefault", "popitem", "sort", "reverse", "add", "discard"}
+    for f in sorted(sites):
+        mn_, q_ = f.split(".", 1)
+        try:
+            fn_ = repo.func(mn_, q_)
+        except Exception:
+            continue
+        globs = set(repo.mod(mn_).globals)
+        for inner in ast.walk(fn_):
+            if inner is fn_ or not isinstance(inner, (ast.FunctionDef, ast.Lambda)):
+                continue
+            alias = {}
+            for n_ in ast.walk(inner):
+                if isinstance(n_, ast.Assign) and isinstance(n_.value, ast.Name) and n_.value.id in globs:
+                    for t_ in n_.targets:
+                        if isinstance(t_, ast.Name):
+                            alias[t_.id] = n_.value.id
+            local = {a_.arg for a_ in inner.args.args} if isinstance(inner, ast.FunctionDef) else set()
+
+            def gbase(x):
+                while isinstance(x, (ast.Subscript, ast.Attribute)):
+                    x = x.value
+                if isinstance(x, ast.Name) and x.id not in local:
+                    return x.id if x.id in globs else alias.get(x.id)
+                return None
+            for n_ in ast.walk(inner):
+                g = None
+                if isinstance(n_, (ast.Subscript, ast.Attribute)) and isinstance(n_.ctx, (ast.Store, ast.Del)):
+                    g = gbase(n_)
+                elif isinstance(n_, ast.Call) and isinstance(n_.func, ast.Attribute) and n_.func.attr in MUT:
+                    g = gbase(n_.func.value)
+                elif isinstance(n_, ast.Global):
+                    g = n_.names[0]
+                if g:
+                    bad.add(f)
+                    rep.violation(rule, f, "global:%s.%s:nested" % (mn_, g),
+                                  "global:%s.%s is written inside the nested function `%s` (line %d): state shared by every call that goes through it"
+                                  % (mn_, g, getattr(inner, "name", "lambda"), n_.lineno), construct="line %d" % n_.lineno)
+                    break
     for f in sorted(sites):
         repo.func(*f.split(".", 1))
         rep.fn(*f.split(".", 1))
